@@ -52,7 +52,8 @@ ASSUMPTIONS = [
     'leftover(return_none=True)/expired() on a new watch without duration may return None/False; '
     'elapsed(maximum < 0); split values under a backwards clock',
 ]
-SHARDS = {'quick': 1, 'thorough': 16}
+INTERPRETER_FLAGS = [[], ['-O'], [], ['-bb']]
+SHARDS = {'quick': 4, 'thorough': 16}
 
 TINY, LARGE = 2.0 ** -20, 2.0 ** 20
 T0 = 1024.0
